@@ -316,6 +316,7 @@ macro_rules! pat_common {
                 #[cfg_attr(kani, kani::stub(std::process::id, crate::c09_pattern::stub_process_id))]
                 #[cfg_attr(kani, kani::stub(std::backtrace::Backtrace::capture, crate::util::stub_backtrace_capture))]
                 #[cfg_attr(kani, kani::stub(<anyhow::Error as std::ops::Drop>::drop, crate::util::stub_anyhow_drop))]
+                #[cfg_attr(kani, kani::stub(<anyhow::Error as std::convert::From<std::io::Error>>::from, crate::util::stub_anyhow_from_cut))]
             }
             $($rest)*
         }
